@@ -166,9 +166,18 @@ class Opt(Val):
 
 class Cond(Val):
     """Boolean value: either a Python bool, an order relation between index entities, or an opaque condition key."""
-    def __init__(self, kind, data):
+    def __init__(self, kind, data, tree=None):
         self.kind = kind      # 'const' | 'rel' | 'key'
         self.data = data
+        self._tree = tree     # optional boolean structure: ('cmp', op, lkey, rkey) | ('or'|'and', t, t) | ('not', t) | ('atom', key)
+
+    @property
+    def tree(self):
+        if self._tree is not None:
+            return self._tree
+        if self.kind == "const":
+            return ("const", bool(self.data))
+        return ("atom", self.key())
 
     def negate(self):
         if self.kind == "const":
@@ -176,7 +185,7 @@ class Cond(Val):
         if self.kind == "rel":
             rel, a, b = self.data
             return Cond("rel", {"<": ("<=", b, a), "<=": ("<", b, a), "=": ("!=", a, b), "!=": ("=", a, b)}[rel])
-        return Cond("key", "!(%s)" % self.data)
+        return Cond("key", "!(%s)" % self.data, tree=("not", self.tree))
 
     def key(self):
         if self.kind == "rel":
@@ -707,7 +716,7 @@ class Interp:
                        "Gt": ("<", r.ent, l.ent), "Ge": ("<=", r.ent, l.ent)}[op]
                 return Cond("rel", rel)
             if isinstance(l, Num) and isinstance(r, Num):
-                return Cond("key", "%s %s %s" % (l.expr.key(), op, r.expr.key()))
+                return Cond("key", "%s %s %s" % (l.expr.key(), op, r.expr.key()), tree=("cmp", op, l.expr.key(), r.expr.key()))
             if isinstance(l, Struct) or isinstance(r, Struct) or isinstance(l, Opaque) or isinstance(r, Opaque):
                 return Cond("key", "%s %s %s" % (getattr(l, "name", "?"), op, getattr(r, "name", "?")))
             raise Undecided("comparison of %r and %r" % (l, r))
@@ -726,7 +735,8 @@ class Interp:
         if op in ("Shl",):
             return Num(Expr.atom(("call", "shl", l.expr, r.expr)))
         if op in ("BitXor", "BitAnd", "BitOr"):
-            return Num(Expr.atom(("call", op.lower(), l.expr, r.expr)))
+            from .expr import bitop
+            return Num(bitop(op.lower(), l.expr, r.expr))   # commutative: canonical operand order
         raise Undecided("binary op %s" % op)
 
     def e_unary(self, e, env):
@@ -741,7 +751,7 @@ class Interp:
         l = self.eval(e["l"], env)
         r = self.eval(e["r"], env)
         if isinstance(l, Cond) and isinstance(r, Cond):
-            return Cond("key", "(%s %s %s)" % (l.key(), e["op"], r.key()))
+            return Cond("key", "(%s %s %s)" % (l.key(), e["op"], r.key()), tree=(e["op"].lower(), l.tree, r.tree))
         raise Undecided("logical op")
 
     def e_if(self, e, env):
@@ -867,6 +877,25 @@ class Interp:
         return Num(Expr.symbol(e["name"]), size=e["name"])
 
     def e_assign(self, e, env):
+        # `p = p (+) x` / `p = x (+) p` is the compound assignment `p (+)= x`
+        r = strip(e["r"])
+        if isinstance(r, dict) and r.get("k") == "binary" and r.get("op") in ("Add", "Mul", "BitOr", "Sub"):
+            def place_of(x):
+                try:
+                    pv, pp = self.place(x, env)
+                    return pv, tuple(pp)
+                except (NotAPlace, Undecided, KeyError, TypeError):
+                    return None
+            lhs = place_of(e["l"])
+            if lhs is not None:
+                for mine, other in ((r["l"], r["r"]), (r["r"], r["l"])):
+                    if r["op"] == "Sub" and mine is not r["l"]:
+                        continue
+                    sm = strip(mine)
+                    while isinstance(sm, dict) and sm.get("k") in ("use", "deref", "borrow") and "e" in sm:
+                        sm = strip(sm["e"])
+                    if isinstance(sm, dict) and sm.get("k") in ("var", "upvar", "field", "index") and place_of(sm) == lhs:
+                        return self.e_assignop({"l": e["l"], "r": other, "op": r["op"] + "Assign"}, env)
         v = self.eval(e["r"], env)
         var, path = self.place(e["l"], env)
         self.update(var, path, "=", v, env)
@@ -875,7 +904,7 @@ class Interp:
     def e_assignop(self, e, env):
         v = self.eval(e["r"], env)
         var, path = self.place(e["l"], env)
-        op = {"AddAssign": "+", "SubAssign": "-", "MulAssign": "*", "DivAssign": "/"}.get(e["op"])
+        op = {"AddAssign": "+", "SubAssign": "-", "MulAssign": "*", "DivAssign": "/", "BitOrAssign": "|"}.get(e["op"])
         if op is None:
             raise Undecided("assign-op %s" % e["op"])
         if op == "/":
@@ -1116,6 +1145,14 @@ class Interp:
                 prod = Expr.atom(("prod", k, cls, val.expr))
                 self.update(var, path, "=", Num(cur.expr * prod), env, summarised=True)
                 return
+            if op == "|":
+                # bitwise union over the loop's index class (commutative, idempotent: iteration order and repeats are immaterial)
+                if gs:
+                    raise Undecided("guarded bit-or accumulation")
+                un = Expr.atom(("bitunion", k, cls, val.expr))
+                from .expr import bitop
+                self.update(var, path, "=", Num(bitop("bitor", cur.expr, un)), env, summarised=True)
+                return
             raise Undecided("loop-carried overwrite of a scalar (%s)" % (var,))
         # indexed write: add a rule with the loop binder
         self.update(var, path, op, val, env, binders=tuple(binders) + ((k, cls),), guards=tuple(gs), summarised=True)
@@ -1205,6 +1242,9 @@ class Interp:
                     return Num(cur.expr - val.expr)
                 if op == "*":
                     return Num(cur.expr * val.expr)
+                if op == "|":
+                    from .expr import bitop
+                    return Num(bitop("bitor", cur.expr, val.expr))
             if op == "push" and isinstance(cur, Arr):
                 raise Undecided("push outside loop")
             raise Undecided("update %s on %r" % (op, cur))
